@@ -125,6 +125,36 @@ CHECKS = {
         ],
         "assumptions": ["serial build (MANIFOLD_PAR=-1): the k-th cancellation check is a deterministic site; the oracle itself does not depend on which site it is"],
     },
+    "C13": {
+        "subs": [
+            {"name": "parallel", "bin": "c13_parallel", "variant": "mock",
+             "quick": {"n": 9600, "size": 100}, "thorough": {"n": 600000, "size": 150}},
+            {"name": "parallel-tbb", "bin": "c13_parallel", "variant": "par", "search_sub": "parallel",
+             "quick": {"n": 3200, "size": 100, "procs": 4}, "thorough": {"n": 100000, "size": 150, "procs": 4}},
+            {"name": "containers", "bin": "c13_containers", "variant": "asan",
+             "quick": {"n": 16000, "size": 100}, "thorough": {"n": 1000000, "size": 150}},
+            {"name": "containers-enum", "bin": "c13_containers", "variant": "asan", "mode": "exhaustive",
+             "quick": {"level": 0}, "thorough": {"level": 1}},
+        ],
+        "assumptions": ["mock TBB executes legal schedules on one thread: order/slot/tree dependence is decided, true data races inside loops are only sampled by the real-TBB sub-check",
+                        "container interleavings are sequentially consistent (one worker runs at a time); weak-memory effects are out of reach",
+                        "reduce is called with commutative+associative operations, as its contract requires"],
+    },
+    "C04": {
+        "subs": [
+            {"name": "determinism", "bin": "c04_determinism", "variant": "mock",
+             "also_build": [{"variant": "seq", "bin": "c04_determinism"}],
+             "env": {"VERIF_C04_SEQ": "/verif/build/seq/bin/c04_determinism", "VERIF_C04_MAXSEG": "256"},
+             "quick": {"n": 640, "size": 100}, "thorough": {"n": 40000, "size": 150, "env": {"VERIF_C04_MAXSEG": "512"}}},
+            {"name": "determinism-tbb", "bin": "c04_determinism", "variant": "par", "search_sub": "determinism",
+             "also_build": [{"variant": "seq", "bin": "c04_determinism"}],
+             "env": {"VERIF_C04_SEQ": "/verif/build/seq/bin/c04_determinism", "VERIF_C04_MAXSEG": "256"},
+             "quick": {"n": 160, "size": 100, "procs": 4}, "thorough": {"n": 6000, "size": 150, "procs": 4, "env": {"VERIF_C04_MAXSEG": "512"}}},
+        ],
+        "assumptions": ["mock TBB is single-threaded: dependence on chunking/order/worker slot/reduction tree is decided, data races inside loops are only sampled by the real-TBB sub-check (worker counts 1,2,3,5,8,16)",
+                        "mesh IDs are relabelled by first appearance before comparing (the ID counter is process-global)",
+                        "the quick tier caps the operand size at 32768 triangles (the 131072-triangle class above the 1e5 gates runs in the thorough tier)"],
+    },
 }
 
 PBT = "property-based testing (rapidcheck byte-tape generators, shrinking, replay files)"
@@ -162,5 +192,9 @@ MANIFEST_TEXT["C09"] = {"text": "structure-aware mutation of valid MeshGL export
                         "note": "quick tier is generated search only; libFuzzer campaigns pin only approximately (the saved artefact is the reproducible unit)", "technique": PBT + " and coverage-guided fuzzing (libFuzzer) with an in-target semantic oracle"}
 MANIFEST_TEXT["C15"] = {"text": "fault injection at every cancellation-check site: an uncancelled run counts the checks through a guarded probe in IsCancelled, then Cancel() is injected at the k-th check for every k (or a spread of k for long runs) and the all-or-nothing / sticky / propagating / operands-untouched / context-short-circuit / progress-monotone contract is judged",
                         "note": "check sites enumerated per program (all of them for K<=40, first/last 8 + 24 generated beyond); programs sampled", "technique": PBT + " with systematic fault (cancellation) injection through a guarded hook"}
-HOOK_COMMITS = ["e9772b10"]
+HOOK_COMMITS = ["e9772b10", "7221178c"]
+MANIFEST_TEXT["C13"] = {"text": "every parallel primitive called with the Par policy compared byte-for-byte with the std:: algorithm under generated legal TBB schedules (mock TBB: splits, chunk order, worker slots, reduce/scan body splitting) and under real oneTBB; union-find and hash table run under a controlled scheduler that owns every atomic access, generated and, for small configurations, enumerated up to a preemption bound",
+                        "note": "schedules sampled (enumerated only for 8 small container configurations with <=2/3 preemptions)", "technique": PBT + " differential against std algorithms with schedule generation; controlled-scheduler interleaving exploration"}
+MANIFEST_TEXT["C04"] = {"text": "byte fingerprints of every exported field compared across reruns, generated legal TBB schedules and arena widths (mock TBB), real worker counts, and the serial backend in a separate process, over programs that cross the serial/parallel size gates",
+                        "note": "schedules and programs sampled; large (>1e5) class only in the thorough tier", "technique": PBT + " differential testing across schedules/backends with a schedule-owning TBB replacement"}
 NOT_CLAIMED = {}
